@@ -57,8 +57,8 @@ def check(ctx):
                             ["", "fX", "fY", "fZ"],
                             [sl.E[k] for k in ("2.5", "2.5+", "2.5++", "2.75", "3.0", "3.0+", "2.25", "0", "8.0")],
                             [0, 3, sl.T025, sl.T050],
-                            thetas=[500000000, 750000000, 900000000, 1000000000])
-          for _ in range(nh)]
+                            thetas=[500000000, 750000000, 900000000, 1000000000], with_meta=(k % 3 == 0))
+          for k in range(nh)]
     trace2, rep2 = sl.validate_histories(ctx, plan_base(hs), "rnd", "C06")
     ctx.notes["seeded_histories"] = len(hs)
     ctx.sample({"tlc_behaviour": [s["op"] for s in beh[0]][:8]})
